@@ -23,13 +23,7 @@ pub fn stub_set_len(_f: &std::fs::File, size: u64) -> std::io::Result<()> {
 }
 /// OpenOptions::open -> a handle on the model file (created empty if absent)
 pub fn stub_open<P: AsRef<std::path::Path>>(_o: &std::fs::OpenOptions, _p: P) -> std::io::Result<std::fs::File> {
-    let f = mmap_append::verif::file();
-    if !f.exists {
-        if mmap_append::verif::effect_allowed() {
-            f.exists = true;
-            f.len = 0;
-        }
-    }
+    mmap_append::verif::file_open_create();
     Ok(unsafe { <std::fs::File as std::os::unix::io::FromRawFd>::from_raw_fd(1000) })
 }
 /// File::metadata / Metadata::len -> length of the model file
@@ -37,7 +31,7 @@ pub fn stub_metadata(_f: &std::fs::File) -> std::io::Result<std::fs::Metadata> {
     Ok(unsafe { core::mem::zeroed() })
 }
 pub fn stub_metadata_len(_m: &std::fs::Metadata) -> u64 {
-    mmap_append::verif::file().len as u64
+    mmap_append::verif::file_len() as u64
 }
 pub fn stub_create_dir<P: AsRef<std::path::Path>>(_p: P) -> std::io::Result<()> {
     Ok(())
@@ -66,4 +60,14 @@ macro_rules! some {
             None => panic!("unexpected None"),
         }
     };
+}
+
+/// `e.to_string()` for an io::Error -> the only message the mmap-append model produces
+/// (going through `Formatter`'s `&mut dyn Write` leaves the String's buffer pointer
+/// undetermined for CBMC; the result of the comparison in EventStore::store_event is what matters)
+/// (the blanket `impl<T: Display> ToString for T` has one generic parameter, so the stub is
+/// generic too: in harnesses that use it, *every* `to_string()` returns this text - the only
+/// `to_string()` on the EventStore paths is the one on the io::Error)
+pub fn stub_io_to_string<T: ?Sized>(_e: &T) -> String {
+    String::from("Out of space")
 }
